@@ -44,10 +44,13 @@ def shape_case(drv, case, prop, cached=False):
         font = fonts.load(case['font'])
         src, opts = 0x80, case.get('opts', 0)
     fid = drv.put_font(font)
-    tb = encode_text(case['text'], case.get('enc', 4))
+    text = case['text']
+    if case.get('repeat_to'):
+        text = (text * (case['repeat_to'] // max(1, len(text)) + 1))[:case['repeat_to']]      # very long texts are stored as unit + length
+    tb = encode_text(text, case.get('enc', 4))
     try:
         r = drv.call(b'S' + struct.pack('<IBB', fid, src, opts) + shape_params(tb, enc=case.get('enc', 4), dir=case.get('dir', 0), ppm=case.get('ppm', 0.0),
-                     feats=[tuple(x) for x in case.get('feats', [])], check_gid=bool(case.get('check_gid')), dump=False, query_all=True, all_sub=bool(case.get('all_sub'))), timeout=40 if case.get('confirm_hang') else 15)
+                     feats=[tuple(x) for x in case.get('feats', [])], check_gid=bool(case.get('check_gid')), dump=False, query_all=True, all_sub=bool(case.get('all_sub'))), timeout=200 if case.get('huge') else (40 if case.get('confirm_hang') else 15))
     except DriverCrash as e:
         if prop == 'C02':
             raise Violation('sanitizer:' + e.kind + ':' + e.summary, case, e.stderr[-1500:])
@@ -230,7 +233,7 @@ def worker(ctx, prop):
             rec.other['C02:at-exit:' + e.summary] = 1
 
 
-SWEEP_RULE = (' Deterministic engine (enum_face sweep + shape): every single-site boundary corruption (7 byte values, +-1, 8 word values) of the tables of the synthesised seed fonts; '
+SWEEP_RULE = (' Very long texts: 70 000 characters (> 65 535 slots and code units) of 2-3 shipped fonts in 2-3 encodings, every invariant checked. Deterministic engine (enum_face sweep + shape): every single-site boundary corruption (7 byte values, +-1, 8 word values) of the tables of the synthesised seed fonts; '
               'each corrupted font the loader accepts is shaped with the font\'s own probe texts (UTF-32, both directions, unhinted / hinted / NULL font) under the same oracle; non-trivial there: a rule fired.')
 
 
@@ -335,6 +338,8 @@ def main(prop, modname, tier, seed, workers, rule, assumptions, fuzz_ignore=()):
         except Inconclusive:
             pass
     sm = sweep_shape(ctx, prop, tier, workers)
+    import hugetext
+    hm = hugetext.run(ctx, prop, tier, workers, judge, lambda c: replay_case(prop, c))
     secs = 35 if tier == 'quick' else 600
     fz = fuzzrun.campaign(prop, 'fz_shape', os.path.join(CORPUS, 'fz_shape'), secs, workers, seed, report=prop, ignore=list(fuzz_ignore))
     fm = fw.merge([])
@@ -352,7 +357,7 @@ def main(prop, modname, tier, seed, workers, rule, assumptions, fuzz_ignore=()):
         else:
             fm['other'][v['prop'] + ':' + v['label']] = fm['other'].get(v['prop'] + ':' + v['label'], 0) + 1
     pm = fw.run_workers(modname, prop, tier, seed, workers, 100 if tier == 'quick' else 900)
-    mm = fw.merge([dict(ctx.rec.dump(), error=None), dict(sm, nontrivial=[], error=None), dict(fm, nontrivial=sorted(fm['nontrivial']), error=None), dict(pm, nontrivial=sorted(pm['nontrivial']), error=None)])
+    mm = fw.merge([dict(ctx.rec.dump(), error=None), dict(sm, nontrivial=[], error=None), dict(hm, nontrivial=[], error=None), dict(fm, nontrivial=sorted(fm['nontrivial']), error=None), dict(pm, nontrivial=sorted(pm['nontrivial']), error=None)])
     mm['nontrivial'] = len(mm['nontrivial']) + sm.get('nt_sweep', 0)     # sweep cases are distinct (offset, value, text) triples by construction
     mm['errors'] = pm['errors']
     if fz['stats'].get('execs', 0) < 1000:
